@@ -5,7 +5,8 @@
 //! rounds of rich blocks (ixlib::chaingen) at heights >= 112402, indexed by four real indexes
 //! (all with inscriptions and runes):
 //!   000  neither sats, addresses nor transactions: first_index_height = 112402, the prefix is
-//!        fetched as HEADERS only, values of spent prefix outputs come from the node (fetcher);
+//!        fetched as HEADERS only, values of spent prefix outputs come from the node (fetcher)
+//!        (unchanged tree; with the S2 repair first_index_height = min(112402, 0) = 0 on signet);
 //!   100  --index-sats, 010 --index-addresses, 111 all three: full UTXO index from height 0.
 //! After every round the eng_store flag projection of every index is compared with the one of
 //! 000 (`flagsx.oracle.same`), the forced "lost inscription" of the last round is compared by
@@ -16,6 +17,8 @@
 //! Nothing is hidden: in mode `lossy` the prefix has underpaying coinbases (lost sats before
 //! activation: S1) and possibly a reserved-rune etching below 112402 (S2); the oracle lines are
 //! emitted with answer `true` whatever the indexes say, `kind=` only classifies the difference.
+//! In the `same` lines `prerune=1` means "the case has a prefix rune and the 000 index lacks it"
+//! (always so on the unchanged tree; never with notes/fix-C15-runes-first-index-height.diff).
 use {
   bitcoin::{
     Amount, Block, OutPoint, ScriptBuf, Sequence, Transaction, TxIn, TxOut, Witness,
@@ -498,9 +501,13 @@ fn run_case(p: &Params, rng: &mut Rng, out: &mut Streams, dist: &mut Dist, scrat
   // locally from height 0 and starts inscriptions at first_ins; fed only the prefix blocks that
   // matter (heights are not contiguous) it must agree with the 000 index, whose values of spent
   // prefix outputs come from the node.
-  // When prerune=1 the model (fed the prefix block with the etching) sees the prefix rune while
-  // the 000 index never does (that is finding S2, reported by the `same` oracle lines), so in that
-  // case the `dump runes` and `dump stats` comparisons are skipped and only `dump ins` is kept.
+  // The driver applies every block as configuration 000 SEES it (`applyBlockTracked`): below
+  // `first_index_height` the rune updater gets no transaction (header-only fetch), the values are
+  // still tracked.  `first_index_height` is read off `Index::open` on every run
+  // (tools/extractors/first_index_height.py): on the unchanged tree the prefix rune of a prerune=1
+  // case is invisible to the 000 index and to the model (finding S2, reported by the `same` oracle
+  // lines); with notes/fix-C15-runes-first-index-height.diff applied both see it.  Either way
+  // `dump ins|runes|stats` of the 000 index must equal the model's.
   if p.model {
     out.emit("cfg sats=0 addr=0 tx=0 ins=1 runes=1 first_ins=112402 jubilee=175392 first_rune=0", "ok");
     emit_block(out, 0, &genesis, network, &g.txs);
@@ -649,10 +656,8 @@ fn run_case(p: &Params, rng: &mut Rng, out: &mut Streams, dist: &mut Dist, scrat
       }
       let secs = env::sections(&dumps[0]);
       out.emit("dump ins", &secs["ins"]);
-      if !prerune {
-        out.emit("dump runes", &secs["runes"]);
-        out.emit("dump stats", &secs["stats"]);
-      }
+      out.emit("dump runes", &secs["runes"]);
+      out.emit("dump stats", &secs["stats"]);
     }
     if round + 1 == p.rounds {
       // evidence that 000 really has no local record of the prefix outputs
@@ -662,8 +667,17 @@ fn run_case(p: &Params, rng: &mut Rng, out: &mut Streams, dist: &mut Dist, scrat
     }
     // index-vs-index comparison
     let projs: Vec<Vec<String>> = dumps.iter().map(|d| project(d)).collect();
+    // S2 in effect: the case has a prefix rune (etched in block `hp`, second transaction) and the
+    // 000 index does not have it.  Only then are differing rune rows attributed to it (`kind`
+    // `prerune`); when the 000 index does see the prefix rune (repaired `first_index_height`) every
+    // rune row must be equal, and the line reads `prerune=0` like any other line without a hidden rune.
+    let prefix_rune_row = format!("rune {hp}:1 ");
+    let hidden = prerune && !projs[0].iter().any(|r| r.starts_with(&prefix_rune_row));
+    if prerune {
+      dist.hit(if hidden { "prefix_rune_hidden_from_000" } else { "prefix_rune_seen_by_000" });
+    }
     for i in 1..slots.len() {
-      let kind = classify(&projs[0], &projs[i], prelost, prerune, slots[i].flags.sats);
+      let kind = classify(&projs[0], &projs[i], prelost, hidden, slots[i].flags.sats);
       if kind != "none" && std::env::var("FLAGSX_VERBOSE").is_ok() {
         // every differing row, for the notes (stderr only)
         let a: BTreeSet<&String> = projs[0].iter().collect();
@@ -682,7 +696,7 @@ fn run_case(p: &Params, rng: &mut Rng, out: &mut Streams, dist: &mut Dist, scrat
           digest(&projs[0]),
           digest(&projs[i]),
           slots[i].tag,
-          prerune as u8,
+          hidden as u8,
           first_diff(&projs[0], &projs[i])
         ),
         "true",
